@@ -346,3 +346,33 @@ func Hex(b []byte) string {
 	}
 	return string(out)
 }
+
+// SchemaAllows: a concrete setting value passes the enum and pattern keywords
+// of the field's jsonschema tag ("Struct.Field"). The pattern is evaluated by
+// the generator (Go regexp) over PatternCandidates and the enum values; any
+// other value, or a pattern Go cannot compile, is unsupported (exit 2).
+func SchemaAllows(key, val string) bool {
+	if enum := SchemaEnums[key]; len(enum) > 0 {
+		in := false
+		for _, e := range enum {
+			if e == val {
+				in = true
+			}
+		}
+		if !in {
+			return false
+		}
+	}
+	if _, has := SchemaPatterns[key]; has {
+		m := SchemaPatternOK[key]
+		if m == nil {
+			Unsupported("the pattern keyword of " + key + " cannot be evaluated")
+		}
+		ok, known := m[val]
+		if !known {
+			Unsupported("no pattern verdict for " + key + " = " + val)
+		}
+		return ok
+	}
+	return true
+}
